@@ -3,6 +3,8 @@ import MoneroModel.Proofs.ScanMore
 import MoneroModel.Proofs.ExtraComplete
 import MoneroModel.Proofs.GroupInstance
 import MoneroModel.Proofs.EdwardsLawful
+import MoneroModel.Proofs.VarIntSpec
+import MoneroModel.Proofs.ScanWitness
 open Monero Monero.Scan Monero.Extra
 /-! # C07 — output scanning reports exactly the outputs addressed to the wallet
 
@@ -16,19 +18,27 @@ an additive commutative group, base point killed by `l`, injective encoding acce
 Vocabulary (Proofs/ScanTable.lean, ScanMatch.lean, ScanTop.lean):
 * `mainKey ops p` / `addKeys ops p` — the first `TxPublicKey` / first `AdditionalPublickKey` sub-field of the parsed extra;
 * `InRange a b c d idx` — `idx ∈ [a,b) × [c,d)`; `LexLt` — the order in which `SubKeyChecker::new` inserts;
-* `Addressed ops v S out i K idx` — the one-time-address relation seen by the receiver, see `C07_addressed_iff`;
+* `Addressed ops v S out i K idx` — the one-time-address relation seen by the receiver, written out in `addressed_iff`;
 * `AddressedVia … K` — `Addressed … K idx` for some in-range `idx`.
+
+Index domain. Subaddress indices, range bounds and positions are `Nat` in the model; the Rust types are `u32` (indices, ranges)
+and `usize` (positions). The theorems are meant for `b ≤ 2^32 ∧ d ≤ 2^32` (every in-range index is a `u32`): beyond that the
+4-byte little-endian index encoding of the model truncates, so two "indices" `i` and `i + 2^32` have the same spend key and the
+no-collision hypotheses `hno` / `hinj` below cannot hold. The statements remain true there, but speak about values Rust cannot hold.
+
+Definitional statements (unfoldings of the model, kept as un-prefixed helpers, NOT counted as results): `addressed_iff`,
+`apis_agree`, `check_eq`. Their content on the Rust side is the harness (`APIS-DIFFER`, `CHECK-DIFFER`).
 
 What is NOT proved (DESIGN §8): that a key built for another wallet does not satisfy the relation by accident — that is the
 discrete-log / hash assumption, sampled by the harness (foreign wallets, wrong position, wrong tag, out-of-range index). -/
 namespace C07
 variable {P : Type} [AddCommGroup P] {ops : CryptoOps P}
 
-/-- meaning of `Addressed`: the target key of the output is an accepted point `Pi`, the candidate transaction key `K` an
+/-- (definitional — the definition of `Addressed` written out) meaning of `Addressed`: the target key of the output is an accepted point `Pi`, the candidate transaction key `K` an
 accepted point `R`, the view tag — when the output carries one — equals the first byte of
 `Keccak("view_tag" ‖ enc(8·v·R) ‖ varint i)`, and `Pi = Hs(enc(8·v·R) ‖ varint i)·G + S'(idx)` with `S'(0,0) = S`,
 `S'(i,j) = S + Hs("SubAddr\0" ‖ v ‖ i ‖ j)·G`. -/
-theorem C07_addressed_iff (v : Nat) (S : P) (out : TxOut) (i : Nat) (K : Bytes) (idx : Nat × Nat) :
+theorem addressed_iff (v : Nat) (S : P) (out : TxOut) (i : Nat) (K : Bytes) (idx : Nat × Nat) :
     Addressed ops v S out i K idx ↔
       ∃ Pi R, (match out.target with | .key k => ops.dec k | .tagged k _ => ops.dec k) = some Pi ∧ ops.dec K = some R ∧
         (match out.target with | .tagged _ tag => tag == viewTagOf ops (derive ops v R) i | .key _ => true) = true ∧
@@ -129,9 +139,9 @@ theorem C07_reported_iff (L : Lawful ops) (decP : Bytes → Option P) (p : Prefi
         exact ⟨w, hw, h1⟩
 
 omit [AddCommGroup P] in
-/-- **When the scan fails.** `Err(NoTxPublicKey)` iff the extra has no transaction key sub-field; any other error is the
-error of the amount-opening step of an output that DID match (C08); with no RingCT base or type `Null` and a transaction key
-present the scan never fails. -/
+/-- **When the scan fails.** `Err(NoTxPublicKey)` iff the extra has no transaction key sub-field (conjuncts 1 and 4: the opening
+step never produces that error); any other error is the error of the amount-opening step of an output that DID match (C08);
+with no RingCT base or type `Null` and a transaction key present the scan never fails. -/
 theorem C07_errors (decP : Bytes → Option P) (p : Prefix) (v : Nat) (S : P) (a b c d : Nat) (base : Option Base) :
     (mainKey ops p = none → checkOutputsPrefix ops decP p v S a b c d base = .error .noTxPublicKey) ∧
     (∀ e, checkOutputsPrefix ops decP p v S a b c d base = .error e → mainKey ops p ≠ none →
@@ -139,8 +149,9 @@ theorem C07_errors (decP : Bytes → Option P) (p : Prefix) (v : Nat) (S : P) (a
         matchOutput ops (Checker.new ops v S a b c d) p.outs[i] i Rm (addKeys ops p)[i]? = some (i, idx, K) ∧
         openStep ops decP v base i K = .error e) ∧
     ((base = none ∨ ∃ bb, base = some bb ∧ bb.ty = 0) → mainKey ops p ≠ none →
-      ∃ ws, checkOutputsPrefix ops decP p v S a b c d base = .ok ws) := by
-  refine ⟨?_, ?_, ?_⟩
+      ∃ ws, checkOutputsPrefix ops decP p v S a b c d base = .ok ws) ∧
+    (checkOutputsPrefix ops decP p v S a b c d base = .error .noTxPublicKey → mainKey ops p = none) := by
+  refine ⟨?_, ?_, ?_, ?_⟩
   · intro hm; unfold checkOutputsPrefix; rw [checkOutputsWith_eq, hm]
   · intro e he hne
     rcases prefix_error ops decP p v S a b c d base e he with ⟨hm, _⟩ | ⟨Rm, hRm, hgo⟩
@@ -155,6 +166,11 @@ theorem C07_errors (decP : Bytes → Option P) (p : Prefix) (v : Nat) (S : P) (a
       unfold checkOutputsPrefix; rw [checkOutputsWith_eq, hm]
       exact go_total_of_open_ok ops decP _ base Rm
         (fun i K => ⟨none, openStep_clear ops decP base _ i K hb⟩) p.outs 0 _
+  · intro he
+    rcases prefix_error ops decP p v S a b c d base _ he with ⟨hm, _⟩ | ⟨Rm, _, hgo⟩
+    · exact hm
+    · obtain ⟨j, _, idx, K, _, h2⟩ := go_error ops decP _ base Rm p.outs 0 _ _ hgo
+      exact absurd h2 (openStep_ne_noTxPublicKey ops decP _ base _ K)
 
 /-- **The sender is recognised.** Let `dest` be the wallet's address at index `(i,j)` (`(0,0)` the primary address, else
 the subaddress `(V', S') = (v·S', S + m·G)`), let the sender use the secret `r` at output position `n`: output key
@@ -205,27 +221,42 @@ theorem C07_sender_reported (L : Lawful ops) (decP : Bytes → Option P) (p : Pr
   exact ⟨w, hw, h1, h3, h4, h5⟩
 
 omit [AddCommGroup P] in
-/-- **The position enters only through its varint.** `check_key` at position `i` is a function (`checkKeyAt`, which has no
-access to `i`) of the bytes `encVarint i`; the two hashed messages are `enc D ‖ varint i` and `"view_tag" ‖ enc D ‖ varint i`,
-and the shared scalar used for the amount is the same `Hs(enc D ‖ varint i)`. Nothing depends on the length of the varint:
-positions 127/128 and 16383/16384 are not special. -/
-theorem C07_position_encoding (ck : Checker P) (out : TxOut) (i : Nat) (K : Bytes) (D : P) :
-    checkKey ops ck out i K = (checkKeyAt ops ck out (encVarint i) K).map (fun idx => (i, idx, K)) ∧
-    rvnScalar ops D i = hsOf ops (ops.enc D ++ encVarint i) ∧
-    viewTagOf ops D i = (ops.keccak (Gen.viewTagSalt ++ ops.enc D ++ encVarint i)).headD 0 ∧
-    (∀ i', encVarint i' = encVarint i → checkKey ops ck out i' K = (checkKey ops ck out i K).map fun r => (i', r.2.1, r.2.2)) := by
-  refine ⟨checkKey_eq_at ops ck out i K, rfl, rfl, ?_⟩
-  intro i' he
-  rw [checkKey_eq_at ops ck out i' K, checkKey_eq_at ops ck out i K, he]
-  cases checkKeyAt ops ck out (encVarint i) K <;> rfl
+/-- **The position enters as the textbook LEB128 string of its number, injectively.** For EVERY position `i`:
+the shared scalar of the model is the specification's `Hs(enc D ‖ Spec.leb128 i)` and its view tag the first byte of
+`Keccak("view_tag" ‖ enc D ‖ Spec.leb128 i)` — the model's varint writer `encVarint` (the loop of the Rust encoder, C14) IS the
+shortest base-128 encoding for every `i`, not only below 128; and the two hashed messages determine the position: among
+derivations whose encodings have one length (32 bytes for Ed25519, `C07_position_encoding_ed25519`), two messages are equal only
+if the encoded derivations AND the positions are equal. So no two positions share a message, whatever the lengths of their
+varints (127/128, 16383/16384 are not special). This is a fact about the MODEL (the first two conjuncts relate two independently
+written definitions; by definition `rvnScalar ops D i = hsOf ops (enc D ++ encVarint i)`); that the Rust code hashes these bytes is
+tied by the harness scenarios whose owned outputs sit around positions 128 and 16384. -/
+theorem C07_position_encoding (D : P) (i : Nat) :
+    rvnScalar ops D i = Spec.Sender.derivationScalar (specPrims ops) D i ∧
+    viewTagOf ops D i = Spec.Sender.viewTag (specPrims ops) D i ∧
+    encVarint i = Spec.leb128 i ∧
+    (∀ D' i', (ops.enc D').length = (ops.enc D).length →
+      ops.enc D' ++ encVarint i' = ops.enc D ++ encVarint i → ops.enc D' = ops.enc D ∧ i' = i) ∧
+    (∀ D' i', (ops.enc D').length = (ops.enc D).length →
+      Gen.viewTagSalt ++ ops.enc D' ++ encVarint i' = Gen.viewTagSalt ++ ops.enc D ++ encVarint i →
+        ops.enc D' = ops.enc D ∧ i' = i) := by
+  have key : ∀ D' i', (ops.enc D').length = (ops.enc D).length →
+      ops.enc D' ++ encVarint i' = ops.enc D ++ encVarint i → ops.enc D' = ops.enc D ∧ i' = i := by
+    intro D' i' hl he
+    obtain ⟨h1, h2⟩ := List.append_inj he hl
+    rw [encVarint_eq_leb128, encVarint_eq_leb128] at h2
+    exact ⟨h1, VarIntSpec.leb128_prefix_free i' i [] [] (by rw [List.append_nil, List.append_nil]; exact h2)⟩
+  refine ⟨rvnScalar_eq ops D i, viewTagOf_eq ops D i, encVarint_eq_leb128 i, key, ?_⟩
+  intro D' i' hl he
+  rw [List.append_assoc, List.append_assoc] at he
+  exact key D' i' hl (List.append_cancel_left he)
 
 omit [AddCommGroup P] in
-/-- **The three entry points are one function.** `Transaction::check_outputs` is `TransactionPrefix::check_outputs` on the
+/-- (definitional — argument plumbing of the model) **The three entry points are one function.** `Transaction::check_outputs` is `TransactionPrefix::check_outputs` on the
 prefix with `rct_signatures.sig.as_ref()`, which is `check_outputs_with` on `SubKeyChecker::new(pair, major, minor)`; and
 `Transaction::check_outputs_with` is the prefix version with the same base. In the model these are definitional unfoldings
 (argument plumbing only); that the Rust functions really are plumbed this way is tied by the harness, which runs every scan
 through all of them and compares (`APIS-DIFFER`). -/
-theorem C07_apis_agree (decP : Bytes → Option P) (t : Tx) (v : Nat) (S : P) (a b c d : Nat) :
+theorem apis_agree (decP : Bytes → Option P) (t : Tx) (v : Nat) (S : P) (a b c d : Nat) :
     checkOutputsTx ops decP t v S a b c d = checkOutputsPrefix ops decP t.pre v S a b c d t.base ∧
     checkOutputsPrefix ops decP t.pre v S a b c d t.base = checkOutputsWith ops decP t.pre (Checker.new ops v S a b c d) t.base ∧
     checkOutputsTxWith ops decP t (Checker.new ops v S a b c d) = checkOutputsWith ops decP t.pre (Checker.new ops v S a b c d) t.base :=
@@ -233,7 +264,8 @@ theorem C07_apis_agree (decP : Bytes → Option P) (t : Tx) (v : Nat) (S : P) (a
 
 /-! ### Negative clauses, exact index, which output determines the error (added after the audit) -/
 
-/-- **Not addressed ⇒ not reported** (the general negative clause: contrapositive of `C07_reported_iff`). An output at position
+/-- **Not addressed ⇒ not reported** (a corollary without new content: the contrapositive of `C07_reported_iff`, stated because the
+negative clauses below are its instances). An output at position
 `i` that neither the main key nor the additional key at position `i` addresses for an in-range index — an output for another
 wallet, for another position, for an out-of-range subaddress, with a non-matching tag — is not in an `Ok` result. What
 remains an assumption (DESIGN §8) is only that such outputs do not satisfy the relation by accident. -/
@@ -269,12 +301,15 @@ theorem C07_wrong_tag_not_reported (L : Lawful ops) (decP : Bytes → Option P) 
 example : ∃ (Q : Type) (_ : AddCommGroup Q) (o : CryptoOps Q) (t : UInt8), Lawful o ∧ ∀ D i, t ≠ viewTagOf o D i :=
   ⟨_, _, zmodOps, 7, zmodOps_lawful, fun _ _ => by show (7 : UInt8) ≠ ([] : List UInt8).headD 0; decide⟩
 
-/-- **Out-of-range subaddress ⇒ not reported.** The output at position `n` was built by the sender for the wallet's address
-at index `(i,j)` with the published key `K = txKey r dest + T`, and no in-range index has the spend key `S'(i,j)` (for an
-index outside the ranges this is the statement that subaddress spend keys do not collide — the hash assumption, stated
-here as the explicit hypothesis `hno`). Then `K` addresses no in-range index at `n`; so if `K` is the main key and the
-additional key at `n` (if any) addresses nothing, or `K` is the additional key at `n` and the main key addresses nothing,
-position `n` is not reported. -/
+/-- **Out-of-range subaddress ⇒ not reported, under two explicit hypotheses.** The output at position `n` was built by the
+sender for the wallet's address at index `(i,j)` with the published key `K = txKey r dest + T`, and
+* `hno` (NO SPEND-KEY COLLISION): no in-range index has the spend key `S'(i,j)`. There is no separate hypothesis "`(i,j)` is not in
+  the ranges": `hno` implies it (an in-range `(i,j)` would collide with itself), and for an index outside the ranges `hno` IS the
+  assumption that subaddress spend keys do not collide — the hash assumption, not provable for an abstract hash;
+* `hK` (THE OTHER KEY ADDRESSES NOTHING): `K` is the main key and the additional key at `n` (if any) addresses no in-range index, or
+  `K` is the additional key at `n` and the main key addresses no in-range index.
+Then position `n` is not reported. Content: `addressed_spend_unique` (the relation fixes the spend key) + the contrapositive of
+`C07_reported_iff`; the cryptographic part is entirely inside `hno`. -/
 theorem C07_out_of_range_not_reported (L : Lawful ops) (decP : Bytes → Option P) (p : Prefix) (v : Nat) (S : P) (a b c d : Nat)
     (base : Option Base) (ws : List Owned) (h : checkOutputsPrefix ops decP p v S a b c d base = .ok ws)
     (Rm : Bytes) (hRm : mainKey ops p = some Rm) (n : Nat) (hn : n < p.outs.length)
@@ -302,10 +337,21 @@ theorem C07_out_of_range_not_reported (L : Lawful ops) (decP : Bytes → Option 
     · exact h2 K hKn
     · rw [e] at hKn; cases hKn; exact hnot
 
-/-- `hno` is satisfiable (trivially so for empty ranges; for non-empty ones it is the no-collision assumption) -/
-example (v : Nat) (S : P) (i j : Nat) :
-    ∀ idx', InRange 0 0 0 0 idx' → subSpendPub ops v S idx'.1 idx'.2 ≠ subSpendPub ops v S i j :=
-  fun _ hr => absurd hr.2.1 (Nat.not_lt_zero _)
+/-- `hno` is satisfiable for a NON-EMPTY range and an index outside it: in the lawful instance `zmodOps1` (Proofs/ScanWitness.lean:
+`Z/(8·l)` with a hash that is constantly `[1]`) the ranges `0..1 × 0..1` contain the primary address only, whose spend key `S`
+differs from the spend key `S + 8` of the out-of-range index `(0,1)`. (In `zmodOps` — constant empty hash — all spend keys are
+equal and `hno` holds for empty ranges only.) -/
+example (v : Nat) (S : ZMod zN) : Lawful zmodOps1 ∧
+    ∀ idx', InRange 0 1 0 1 idx' → subSpendPub zmodOps1 v S idx'.1 idx'.2 ≠ subSpendPub zmodOps1 v S 0 1 := by
+  refine ⟨zmodOps1_lawful, ?_⟩
+  rintro ⟨x1, x2⟩ hr
+  unfold InRange at hr; simp only at hr
+  have h1 : x1 = 0 := by omega
+  have h2 : x2 = 0 := by omega
+  subst h1; subst h2
+  rw [zmodOps1_subSpendPub, zmodOps1_subSpendPub]
+  simp only [and_self, if_true, Nat.succ_ne_zero, and_false, if_false, one_ne_zero]
+  exact (zmodOps1_add8_ne S).symm
 
 /-- **The reported index is exact** when the subaddress spend keys of the scanned ranges are pairwise different (`hinj`; the
 hash assumption made explicit): under the hypotheses of `C07_complete` the reported index IS `idx`. -/
@@ -339,7 +385,27 @@ theorem C07_sender_reported_exact (L : Lawful ops) (decP : Bytes → Option P) (
   C07_index_exact L decP p v S a b c d base ws h Rm hRm n hn _ (i, j) hr
     (C07_sender_recognised L v S i j r n T hT p.outs[n] hout) hK hinj
 
-/-- `hinj` is satisfiable: a range with a single index -/
+/-- `hinj` is satisfiable for a range with TWO indices (where `C07_index_exact` says more than `InRange`): in `zmodOps1` the indices
+`(0,0)` and `(0,1)` of the ranges `0..1 × 0..2` have the spend keys `S` and `S + 8` -/
+example (v : Nat) (S : ZMod zN) : ∀ x y : Nat × Nat, InRange 0 1 0 2 x → InRange 0 1 0 2 y →
+    subSpendPub zmodOps1 v S x.1 x.2 = subSpendPub zmodOps1 v S y.1 y.2 → x = y := by
+  rintro ⟨x1, x2⟩ ⟨y1, y2⟩ hx hy he
+  unfold InRange at hx hy; simp only at hx hy he
+  have hx1 : x1 = 0 := by omega
+  have hy1 : y1 = 0 := by omega
+  subst hx1; subst hy1
+  rw [zmodOps1_subSpendPub, zmodOps1_subSpendPub] at he
+  have hx2 : x2 = 0 ∨ x2 = 1 := by omega
+  have hy2 : y2 = 0 ∨ y2 = 1 := by omega
+  rcases hx2 with rfl | rfl <;> rcases hy2 with rfl | rfl
+  · rfl
+  · simp only [and_self, if_true, Nat.succ_ne_zero, and_false, if_false, one_ne_zero] at he
+    exact absurd he.symm (zmodOps1_add8_ne S)
+  · simp only [and_self, if_true, Nat.succ_ne_zero, and_false, if_false, one_ne_zero] at he
+    exact absurd he (zmodOps1_add8_ne S)
+  · rfl
+
+/-- … and trivially for a range with a single index, in every instance -/
 example (v : Nat) (S : P) : ∀ x y : Nat × Nat, InRange 0 1 0 1 x → InRange 0 1 0 1 y →
     subSpendPub ops v S x.1 x.2 = subSpendPub ops v S y.1 y.2 → x = y := by
   intro x y hx hy _
@@ -388,17 +454,17 @@ theorem C07_ok_of_matched_openings (decP : Bytes → Option P) (p : Prefix) (v :
   exact hop j hj idx K hm
 
 omit [AddCommGroup P] in
-/-- **`SubKeyChecker::check` is `check_with_key_generator` on the generator of that transaction key** (the two public lookup
+/-- (definitional) **`SubKeyChecker::check` is `check_with_key_generator` on the generator of that transaction key** (the two public lookup
 functions of onetime_key.rs have the same body; in the model this is the definition, the Rust side is tied by the harness
 operation `c07_check`, which calls both on the same inputs). -/
-theorem C07_check_eq (ck : Checker P) (i : Nat) (key R : P) :
+theorem check_eq (ck : Checker P) (i : Nat) (key R : P) :
     ck.check ops i key R = ck.checkWithKeyGenerator ops (derive ops ck.v R) i key ∧
     ck.check ops i key R = tblGet ck.table (ops.enc (ops.sub key (pubOf ops (rvnScalar ops (derive ops ck.v R) i)))) :=
   ⟨rfl, rfl⟩
 
-/-- **Direct lookup: `SubKeyChecker::check` finds exactly the addressed in-range indices.** For a checker built by
-`SubKeyChecker::new`: `check(i, P_i, R)` returns `Some(idx)` iff `idx` is in range, `P_i = Hs(8·v·R ‖ i)·G + S'(idx)` and `idx`
-is the last inserted index with that spend key. -/
+/-- **Direct lookup, soundness.** For a checker built by `SubKeyChecker::new`: IF `check(i, P_i, R)` returns `Some(idx)` then `idx` is
+in range, `P_i = Hs(8·v·R ‖ i)·G + S'(idx)` and `idx` is the last inserted index with that spend key. (The equivalence is
+`C07_check_iff`.) -/
 theorem C07_check_sound (L : Lawful ops) (v : Nat) (S : P) (a b c d : Nat) (i : Nat) (key R : P) (idx : Nat × Nat)
     (h : (Checker.new ops v S a b c d).check ops i key R = some idx) :
     InRange a b c d idx ∧ key = rvnScalar ops (derive ops v R) i • ops.base + subSpendPub ops v S idx.1 idx.2 ∧
@@ -430,6 +496,30 @@ theorem C07_check_complete (L : Lawful ops) (v : Nat) (S : P) (a b c d : Nat) (i
     have := (tblGet_new_some ops v S a b c d _ idx' hg).2.1
     rw [hkey] at this
     exact (L.enc_inj this).symm
+
+/-- `LexLt` is asymmetric -/
+private theorem lexLt_asymm {x y : Nat × Nat} (h1 : LexLt x y) (h2 : LexLt y x) : False := by
+  unfold LexLt at h1 h2; omega
+
+/-- **Direct lookup: `SubKeyChecker::check` finds exactly the addressed in-range indices.** `check(i, P_i, R)` returns `Some(idx)`
+IFF `idx` is in range, `P_i = Hs(8·v·R ‖ i)·G + S'(idx)` and `idx` is the last inserted (lexicographically greatest) in-range
+index with that spend key. -/
+theorem C07_check_iff (L : Lawful ops) (v : Nat) (S : P) (a b c d : Nat) (i : Nat) (key R : P) (idx : Nat × Nat) :
+    (Checker.new ops v S a b c d).check ops i key R = some idx ↔
+      (InRange a b c d idx ∧ key = rvnScalar ops (derive ops v R) i • ops.base + subSpendPub ops v S idx.1 idx.2 ∧
+        ∀ idx', InRange a b c d idx' → subSpendPub ops v S idx'.1 idx'.2 = subSpendPub ops v S idx.1 idx.2 →
+          idx' = idx ∨ LexLt idx' idx) := by
+  constructor
+  · exact C07_check_sound L v S a b c d i key R idx
+  · rintro ⟨hr, hkey, hmax⟩
+    obtain ⟨idx', hc, hs⟩ := C07_check_complete L v S a b c d i R idx hr
+    rw [← hkey] at hc
+    obtain ⟨hr', _, hmax'⟩ := C07_check_sound L v S a b c d i key R idx' hc
+    rcases hmax idx' hr' hs with e | hlt
+    · rw [hc, e]
+    · rcases hmax' idx hr hs.symm with e | hlt'
+      · rw [hc, e]
+      · exact (lexLt_asymm hlt hlt').elim
 
 /-! ### From the sender's extra bytes (C16 composed) -/
 
@@ -466,10 +556,25 @@ theorem C07_sender_tx_reported (L : Lawful ops) (decP : Bytes → Option P) (p :
   have hk := (C07_keys_of_sender_extra p _ hw hp).1
   exact C07_sender_reported L decP p v S a b c d base ws h _ hk n hn i j r T hT hr hout (Or.inl rfl)
 
-/-- the well-formedness hypothesis is satisfiable: the sender's key alone (32 bytes, accepted) -/
-example (L : Lawful ops) (X : P) (h32 : (ops.enc X).length = 32) : WFSeq (validKey ops) [.txPub (ops.enc X)] := by
-  show (ops.enc X).length = 32 ∧ validKey ops (ops.enc X) = true
-  exact ⟨h32, by unfold validKey; rw [L.dec_enc]; rfl⟩
+/-- **An `Ok` scan that reports something (no `.ok` premise).** As `C07_sender_tx_reported`, for a scan without RingCT data (no
+base, or type `Null`): the scan IS `Ok` (`C07_errors`, clause 3) and reports position `n` with the sender's key. Every
+hypothesis is about the transaction the sender wrote; `C07_witness_ed25519` instantiates all of them. -/
+theorem C07_sender_tx_reported_clear (L : Lawful ops) (decP : Bytes → Option P) (p : Prefix) (v : Nat) (S : P) (a b c d : Nat)
+    (base : Option Base) (hb : base = none ∨ ∃ bb, base = some bb ∧ bb.ty = 0)
+    (n : Nat) (hn : n < p.outs.length) (i j r : Nat) (T : P) (hT : 8 • T = 0) (hr : InRange a b c d (i, j))
+    (rest : List SubField)
+    (hw : WFSeq (validKey ops) (.txPub (ops.enc (Spec.Sender.txKey (specPrims ops) r (Spec.Sender.destAt (specPrims ops) v S i j) + T)) :: rest))
+    (hp : p.extra = ((SubField.txPub (ops.enc (Spec.Sender.txKey (specPrims ops) r (Spec.Sender.destAt (specPrims ops) v S i j) + T)) :: rest).map encSub).flatten)
+    (hout : p.outs[n].target = .key (ops.enc (Spec.Sender.sendKey (specPrims ops) r (Spec.Sender.destAt (specPrims ops) v S i j) n)) ∨
+      p.outs[n].target = .tagged (ops.enc (Spec.Sender.sendKey (specPrims ops) r (Spec.Sender.destAt (specPrims ops) v S i j) n))
+        (Spec.Sender.sendTag (specPrims ops) r (Spec.Sender.destAt (specPrims ops) v S i j) n)) :
+    ∃ ws, checkOutputsPrefix ops decP p v S a b c d base = .ok ws ∧ ∃ w ∈ ws, w.index = n ∧
+      w.txKey = ops.enc (Spec.Sender.txKey (specPrims ops) r (Spec.Sender.destAt (specPrims ops) v S i j) + T) ∧
+      InRange a b c d w.sub ∧ subSpendPub ops v S w.sub.1 w.sub.2 = subSpendPub ops v S i j := by
+  have hk := (C07_keys_of_sender_extra p _ hw hp).1
+  have hne : mainKey ops p ≠ none := by rw [hk]; exact fun h => by cases h
+  obtain ⟨ws, hws⟩ := (C07_errors decP p v S a b c d base).2.2.1 hb hne
+  exact ⟨ws, hws, C07_sender_tx_reported L decP p v S a b c d base ws hws n hn i j r T hT hr rest hw hp hout⟩
 
 /-- the hypotheses are satisfiable: a lawful instance exists -/
 example : ∃ (Q : Type) (_ : AddCommGroup Q) (o : CryptoOps Q), Lawful o := ⟨_, _, zmodOps, zmodOps_lawful⟩
@@ -497,5 +602,49 @@ theorem C07_out_of_range_not_reported_ed25519 : type_of% (@C07_out_of_range_not_
 theorem C07_sender_reported_exact_ed25519 : type_of% (@C07_sender_reported_exact EdPoint _ edOps edOps_lawful) := C07_sender_reported_exact edOps_lawful
 theorem C07_sender_tx_reported_ed25519 : type_of% (@C07_sender_tx_reported EdPoint _ edOps edOps_lawful) := C07_sender_tx_reported edOps_lawful
 theorem C07_check_sound_ed25519 : type_of% (@C07_check_sound EdPoint _ edOps edOps_lawful) := C07_check_sound edOps_lawful
+theorem C07_check_iff_ed25519 : type_of% (@C07_check_iff EdPoint _ edOps edOps_lawful) := C07_check_iff edOps_lawful
+
+/-- every Ed25519 encoding has 32 bytes -/
+theorem edOps_enc_length (X : EdPoint) : (edOps.enc X).length = 32 := by rw [edOps_enc]; exact encodePt_length _
+
+/-- the well-formedness hypothesis `hw` of `C07_sender_tx_reported` is satisfiable: for EVERY point `X` of Ed25519 the extra field
+consisting of the transaction key `enc X` alone is well formed (32 bytes, accepted by `PublicKey::from_slice`) -/
+example (X : EdPoint) : WFSeq (validKey edOps) [.txPub (edOps.enc X)] := by
+  show (edOps.enc X).length = 32 ∧ validKey edOps (edOps.enc X) = true
+  exact ⟨edOps_enc_length X, by unfold validKey; rw [edOps_lawful.dec_enc]; rfl⟩
+
+/-- `C07_position_encoding` for Ed25519: encodings have 32 bytes, so the length hypothesis is gone — the message hashed for the
+shared scalar (and for the view tag) determines the encoded derivation and the position -/
+theorem C07_position_encoding_ed25519 (D D' : EdPoint) (i i' : Nat) :
+    (edOps.enc D' ++ encVarint i' = edOps.enc D ++ encVarint i → D' = D ∧ i' = i) ∧
+    (Gen.viewTagSalt ++ edOps.enc D' ++ encVarint i' = Gen.viewTagSalt ++ edOps.enc D ++ encVarint i → D' = D ∧ i' = i) := by
+  obtain ⟨_, _, _, h1, h2⟩ := C07_position_encoding (ops := edOps) D i
+  have hl : (edOps.enc D').length = (edOps.enc D).length := by rw [edOps_enc_length, edOps_enc_length]
+  exact ⟨fun he => ⟨edOps_enc_inj (h1 D' i' hl he).1, (h1 D' i' hl he).2⟩,
+    fun he => ⟨edOps_enc_inj (h2 D' i' hl he).1, (h2 D' i' hl he).2⟩⟩
+
+/-- **A joint witness: an `Ok` scan on Ed25519 that reports an output.** For every wallet `(v, S)` and sender secret `r`, the
+version-2 transaction without inputs whose extra field is the transaction key `r·G` alone and whose single output (clear amount
+5) is the sender's one-time key for the primary address scans — with ranges `0..1 × 0..1`, no base — to `Ok` and reports
+position 0 with that key and index `(0,0)`. All hypotheses of `C07_sender_tx_reported(_clear)` hold together. -/
+theorem C07_witness_ed25519 (decP : Bytes → Option EdPoint) (v r : Nat) (S : EdPoint) :
+    ∃ ws, checkOutputsPrefix edOps decP
+        ⟨2, 0, [], [⟨5, .key (edOps.enc (Spec.Sender.sendKey (specPrims edOps) r (Spec.Sender.destAt (specPrims edOps) v S 0 0) 0))⟩],
+          ([SubField.txPub (edOps.enc (Spec.Sender.txKey (specPrims edOps) r (Spec.Sender.destAt (specPrims edOps) v S 0 0) + 0))].map encSub).flatten⟩
+        v S 0 1 0 1 none = .ok ws ∧
+      ∃ w ∈ ws, w.index = 0 ∧ w.sub = (0, 0) := by
+  have hr : InRange 0 1 0 1 ((0 : Nat), (0 : Nat)) := ⟨Nat.le_refl _, Nat.one_pos, Nat.le_refl _, Nat.one_pos⟩
+  obtain ⟨ws, hws, w, hw, h1, _, h3, _⟩ := C07_sender_tx_reported_clear edOps_lawful decP
+    ⟨2, 0, [], [⟨5, .key (edOps.enc (Spec.Sender.sendKey (specPrims edOps) r (Spec.Sender.destAt (specPrims edOps) v S 0 0) 0))⟩],
+      ([SubField.txPub (edOps.enc (Spec.Sender.txKey (specPrims edOps) r (Spec.Sender.destAt (specPrims edOps) v S 0 0) + 0))].map encSub).flatten⟩
+    v S 0 1 0 1 none (Or.inl rfl) 0 Nat.one_pos 0 0 r 0 (smul_zero 8) hr []
+    (by show (edOps.enc _).length = 32 ∧ validKey edOps (edOps.enc _) = true
+        exact ⟨edOps_enc_length _, by unfold validKey; rw [edOps_lawful.dec_enc]; rfl⟩)
+    rfl (Or.inl rfl)
+  refine ⟨ws, hws, w, hw, h1, ?_⟩
+  unfold InRange at h3
+  have e1 : w.sub.1 = 0 := by omega
+  have e2 : w.sub.2 = 0 := by omega
+  exact Prod.ext e1 e2
 end Ed25519
 end C07
